@@ -257,10 +257,10 @@ class AsyncClient(base_client.BaseClient):
         except ValueError:
             raise exceptions.ConnectionError(
                 'Unexpected response from server') from None
-        open_packet = p.packets[0]
-        if open_packet.packet_type != packet.OPEN:
+        if not p.packets or p.packets[0].packet_type != packet.OPEN:
             raise exceptions.ConnectionError(
                 'OPEN packet not returned by server')
+        open_packet = p.packets[0]
         self.logger.info(
             'Polling connection accepted with ' + str(open_packet.data))
         self.sid = open_packet.data['sid']
